@@ -1112,7 +1112,7 @@ def b9_check(case):
                               {"step": i, "allow_%s(%r)" % (k, x): got},
                               {"door": "allow_" + k, "history": "same-string-both-kinds" if any(
                                   o[0] == "ask" and o[2] == x and o[1] != k for o in case["ops"][:i]) else "other"}))
-    return viols, {"nontrivial": denied_seen, "outcome": "B9:" + "".join(answers)}
+    return viols, {"nontrivial": denied_seen, "outcome": "B9:%d asked:%d denied" % (len(answers), sum(1 for a in answers if a.endswith("0")))}
 
 
 # ---- B7: the public collection entry point collect.collect(manifest=..., rm_conf=...) ---------------------------------
